@@ -645,3 +645,17 @@ SPECS["C12"]["not_covered"] = ["numpy itself (assumed item-level contracts)", "s
                                "concatenation of pipeline blocks for shapes other than the L/R pair (bounded monitor)"]
 SPECS["C05"]["not_covered"] = ["directories of more than 3 samples as a contract", "pairs of UNEQUAL length beyond one block (padding of the shorter half: block lemma + bounded monitor)"]
 SPECS["C01"]["not_covered"] = ["VolumesAdapter / FileEntriesAdapter / PartitionAdapter plumbing (construct context passing)"]
+
+# C10: what ls of a directory prints is the name parse_path compares with
+SPECS["C10"]["contracts"] += [f"smpl_extract.structural:Traversable.get_info[children={n}]" for n in (0, 1, 2, 3)]
+SPECS["C10"]["level_text"] += ("; Traversable.get_info prints, per child and in order, the child's safe name whenever one was assigned (the empty string included) and its type "
+                               "(0..3 children) - the same `safe_name` parse_path compares path tokens with")
+SPECS["C10"]["not_covered"] = ["trees and paths beyond the proved shapes (bounded monitor)", "re.split semantics (assumed contract)", "the lazy realisation of `children` (construct glue)",
+                               "rendering of a resolved LEAF item (itemize / InfoTree)", "InfoTable.print_table column layout"]
+
+# C02: the files of one performance (programs in patch order, then every patch's samples in patch order)
+SPECS["C02"]["contracts"] += [f"smpl_extract.roland.s7xx.performance_entry:PerformanceEntry.files[patches={n}]" for n in (1, 2)]
+SPECS["C02"]["level_text"] += "; PerformanceEntry.files (1, 2 patches): one program per patch in patch order, then every patch's sample files in patch order, remembered"
+SPECS["C02"]["not_covered"] = ["record addressing lambdas of the *EntryConstruct declarations beyond the address obligations", "get_file / _get_*_params glue beyond the contracts listed",
+                               "that ONE `_seen_sample_indices` set serves all patches of a performance (end-to-end monitor: a sample reached through two patches)"]
+SPECS["C06"]["not_covered"] = ["uniqueness for directories of more than 4 entries as a contract (needs a quantified invariant over a symbolic dictionary)", "os.path.join / makedirs (assumed)"]
